@@ -29,7 +29,8 @@ def concretePrims : Prims where
 
 namespace Noise
 
-def protocolName : Bytes := "Noise_X_25519_ChaChaPoly_SHA256".toUTF8.toList
+/-- the protocol name passed to `SymmetricState::new`, taken from the source by the translator -/
+def protocolName : Bytes := Generated.protocolNameBytes
 
 /-- SymmetricState: chaining key, handshake hash, cipher key (nonce is always 0 when used in X) -/
 structure Sym where
